@@ -177,7 +177,8 @@ class SharedDataMiddleware:
 
             try:
                 resource = reader.open_resource(path)
-            except OSError:
+            except (OSError, ValueError):
+                # ValueError: the path contains a NUL byte, no such resource
                 return None, None
 
             if isinstance(resource, BytesIO):
